@@ -459,6 +459,18 @@ func isNilIface(v value) bool {
 func init() {
 	E := func(name string, f externalFn) { externals[name] = f }
 
+	// ---- environment without configuration or network: viper keys are unset, and an
+	// outgoing HTTP request through the heimdall client fails (no response, an error)
+	E("github.com/spf13/viper.GetString", func(fr *frame, args []value) value { return "" })
+	E("net/http.NewRequest", func(fr *frame, args []value) value {
+		// an outgoing request is only ever handed to a client whose Do is stubbed above
+		v := zero(lookupNamed(fr.i.prog, "net/http", "Request"))
+		return tuple{&v, iface{}}
+	})
+	E("(*github.com/gojektech/heimdall/v6/httpclient.Client).Do", func(fr *frame, args []value) value {
+		return tuple{(*value)(nil), fr.i.mkError("dial tcp: network is unreachable (gosx: no network)")}
+	})
+
 	// ---- fmt
 	E("fmt.Sprintf", func(fr *frame, args []value) value {
 		return sprintf(fr, concStr(args[0], "fmt.Sprintf format"), args[1].([]value))
